@@ -98,7 +98,14 @@ fn judge(w: &mut World, ctx: ReqCtx, p: &Prop, res: &Res, live: bool) {
     *w.stats.probes.entry("invalid_probe_evaluated").or_insert(0) += 1;
     match l {
         Legal::No => {
-            if *res != Res::InvalidRequest {
+            // refused for an earlier, unrelated reason (older outbound work failed, cancelled
+            // before validation) is fine; being accepted is not
+            if ctx != ReqCtx::Disconnect {
+                if let Some(r) = w.reqs.last_mut() {
+                    r.must_refuse = true;
+                }
+            }
+            if matches!(res, Res::Ok | Res::OkOp) {
                 w.violate(
                     "C19",
                     format!("illegal-accepted/{}/prop={:#04x}", ctx_name(ctx), p.id),
